@@ -856,6 +856,10 @@ impl DirectAddrUpdateState {
                     }
                 }
 
+                // Release the net reporter before signalling: the actor reacts to the signal
+                // with `try_run`, which must find the lock free to start a queued update.
+                drop(net_reporter);
+
                 // mark run as finished
                 debug!("direct addr update done ({:?})", why);
                 #[cfg(iroh_verif)]
